@@ -141,6 +141,7 @@ def run(tier, seed):
             for clause, detail in out.failures:
                 rep.add_failure('table versions: ' + clause, dict(detail, encoded_in_this_order=tag), case.to_json(),
                                 stage='table versions')
+    std.run_boundary(rep, tier, check_case)
     fuzz.run_structured(rep, 'checks.c02', _fuzz_gen, tier)
     return rep.finish()
 
